@@ -9,3 +9,6 @@ for eq, term, rep, exp in cases:
     got = replace(eq, term, rep)
     print(repr(eq), '->', repr(got))
     assert got == exp, (got, exp)
+# the x' notation (fixed separately)
+got = replace("x' = -x + rr", 'x', 'z')
+print(repr(got)); assert got == "z' = -z + rr"
